@@ -485,4 +485,20 @@ def table_witness(model, final_is_none, seed):
             return {'what': 'regimen (start %s, period %s, %s doses) up to final time %s: the table lists the times %s, the simulation applies doses at %s' % (
                 start, period, mult or 'indefinitely many', T, [g_[0] for g_ in got], [w_[0] for w_ in want]),
                 'start': start, 'period': period, 'multiplier': mult, 'final_time': T, 'expected': want, 'observed': got}
+    if not final_is_none:
+        # an explicit protocol with several events of different rates and durations (a loading infusion, then shorter maintenance doses):
+        # every listed amount is rate x duration of *its own* event
+        events = [(4.0, 0.5, 0.25), (2.0, 1.5, 1.0), (8.0, 3.0, 0.125)]
+        for T in (1.0, 2.0, 4.0, 7.0):
+            toy = Toy()
+            prot = myokit.Protocol()
+            for lev, st, du in events:
+                prot.schedule(lev, st, du)
+            toy._reg = prot
+            df = chi.PredictiveModel(toy, chi.GaussianErrorModel()).get_dosing_regimen(final_time=T)
+            got = [] if df is None else sorted((float(a_), float(b_), float(c_)) for a_, b_, c_ in zip(df['Time'], df['Duration'], df['Dose']))
+            want = sorted((st, du, lev * du) for lev, st, du in events if st <= T)
+            if len(got) != len(want) or (want and not np.allclose(np.array(got), np.array(want))):
+                return {'what': 'protocol with the events (rate, start, duration) %s up to final time %s: the table lists (time, duration, amount) %s, the events deliver %s' % (events, T, got, want),
+                        'final_time': T, 'expected': want, 'observed': got}
     return None
